@@ -285,7 +285,7 @@ func (c *FnCtx) specCall(env *Env, x *ast.CallExpr) Val {
 			a := c.eval(env, x.Args[0])
 			b := c.eval(env, x.Args[1])
 			if id.Name == "ediv" {
-				return mathInt(app("div", a.T, b.T))
+				return mathInt(c.divT(a.T, b.T))
 			}
 			return mathInt(app("mod", a.T, b.T))
 		case "tdiv", "tmod", "absI", "minI", "maxI", "pow2":
@@ -299,6 +299,31 @@ func (c *FnCtx) specCall(env *Env, x *ast.CallExpr) Val {
 			return mathInt(app(id.Name, as...))
 		case "wrapS8", "wrapS16", "wrapS32", "wrapS64", "wrapU8", "wrapU16", "wrapU32", "wrapU64":
 			return mathInt(app(id.Name, c.eval(env, x.Args[0]).T))
+		case "wrapas", "bitsof", "issigned":
+			// wrapas(x, e): e reduced to the machine integer type of x (two's complement);
+			// bitsof(x) / issigned(x): width and signedness of that type.  For generic
+			// functions the type is the instantiated one.
+			v := c.eval(env, x.Args[0])
+			bits, signed, ok := intInfo(c.subst(v.Typ))
+			if !ok || bits == 0 {
+				c.unsup(x, "%s of a non machine integer", id.Name)
+				return Val{}
+			}
+			switch id.Name {
+			case "bitsof":
+				return mathInt(fmt.Sprint(bits))
+			case "issigned":
+				if signed {
+					return boolVal("true")
+				}
+				return boolVal("false")
+			}
+			e := c.eval(env, x.Args[1])
+			fn := fmt.Sprintf("wrapU%d", bits)
+			if signed {
+				fn = fmt.Sprintf("wrapS%d", bits)
+			}
+			return Val{T: app(fn, e.T), Typ: v.Typ}
 		case "Z":
 			v := c.eval(env, x.Args[0])
 			return mathInt(v.T)
